@@ -188,7 +188,36 @@ type program struct {
 	Strength  int        `json:"perturb_strength"`
 }
 
+// genEarlyClose: directed family - the acceptor closes the moment Accept hands
+// it the tube (its FIN races the opener's initiation), both ends then close
+// and wait, and nothing but the tubes' own mechanisms may complete the close
+// for two virtual minutes.
+func genEarlyClose(rng *vh.Rand) program {
+	var p program
+	p.Net = netPlan{Class: "healthy", DeadAt: -1}
+	n := 1 + rng.Intn(3)
+	for t := 0; t < n; t++ {
+		p.Tubes = append(p.Tubes, true)
+		a := []opSpec{{Op: "read"}, {Op: "close"}, {Op: "waitforclose"}}
+		if rng.Bool() {
+			a = []opSpec{{Op: "close"}, {Op: "waitforclose"}}
+		}
+		b := []opSpec{{Op: "close"}, {Op: "waitforclose"}}
+		if rng.Chance(0.3) {
+			b = []opSpec{{Op: "write", N: rng.Pick(1, 100, 40000)}, {Op: "close"}, {Op: "waitforclose"}}
+		}
+		p.EndProgs = append(p.EndProgs, a, b)
+	}
+	p.StopAfter = [2]int{100000 + rng.Intn(40000), 100000 + rng.Intn(40000)}
+	p.KeepAlive = true
+	p.Strength = rng.Pick(20, 60, 90)
+	return p
+}
+
 func genProgram(rng *vh.Rand) program {
+	if rng.Chance(0.2) {
+		return genEarlyClose(rng)
+	}
 	var p program
 	p.Net = genNet(rng)
 	n := 1 + rng.Intn(3)
